@@ -41,6 +41,13 @@ class C11(Cfg):
         path = os.path.join(work, "hist_C11.ops")
         lib.sh([dv, "gen", "--prop", "C11", "--seed", str(seed), "--n", str(n), "--len", str(ln), "--out", path], check=True)
         res.append(("histories C11 seed=%d n=%d" % (seed, n), path, False))
+        # the paths repaired for #18: a row and its deletion record meeting in either order (tombstone first then a pull
+        # from a peer that has not seen it; newer version first then the record), references of the deleted row,
+        # deletion on the day of the last change and on later days
+        n = 12 if tier == "quick" else 300
+        path = os.path.join(work, "del_C11.ops")
+        lib.sh([dv, "gen", "--prop", "C11del", "--seed", str(seed), "--n", str(n), "--out", path], check=True)
+        res.append(("deletion scenarios seed=%d n=%d" % (seed, n), path, False))
         if tier != "quick":
             path = os.path.join(work, "orders_C11.ops")
             lib.sh([dv, "gen", "--prop", "orders", "--seed", str(seed + 77), "--n", "3", "--len", "3", "--out", path], check=True)
